@@ -6,8 +6,8 @@ P = 5
 JOBS = [
     step(P, 'size',          0, 0, 0, 0, 0, 0),
     step(P, 'daily',         2, 1, 1, 0, 1, 0, extra={'VF_ACTIVE_FIXED': 1}),
-    step(P, 'startup_gz',    0, 0, 0, 1, 0, 1, timeout=3000, mem=28, tiers=('thorough',)),
-    step(P, 'gz_9_10',       5, 0, 0, 1, 0, 1, timeout=3600, mem=28, tiers=('thorough',)),      # about 25 min (compression: CRC table and loops)
+    step(P, 'startup_gz',    0, 0, 0, 1, 0, 1, timeout=5400, mem=44, tiers=('thorough',)),
+    step(P, 'gz_9_10',       5, 0, 0, 1, 0, 1, timeout=5400, mem=44, tiers=('thorough',)),      # about 25 min (compression: CRC table and loops)
     step(P, 'gzmenu_daily',  3, 1, 1, 0, 1, 0, tiers=('thorough',), timeout=3000, mem=28),
     step(P, 'all_on',        2, 1, 1, 1, 1, 1, tiers=('thorough',), timeout=3600, mem=32),
     step(P, 'size_2writes',  0, 0, 0, 0, 0, 0, ops=2, tiers=('thorough',), timeout=5400, mem=40),
